@@ -432,6 +432,11 @@ def gen_transfer_case(rng, netascii=None, opt_style=None, script_style=None, sim
 def shrink_session(case):
     """smaller variants of a session case"""
     c = case
+    if c.get("more"):
+        for i in range(len(c["more"])):
+            d = dict(c); d["more"] = c["more"][:i] + c["more"][i + 1:]; yield d
+        m0 = c["more"][0]
+        d = dict(c); d["datagram"] = m0["datagram"]; d["script"] = m0.get("script", []); d["more"] = c["more"][1:]; yield d
     script = c.get("script", [])
     # drop script suffix / single events
     for cut in (len(script) // 2, len(script) - 1):
@@ -491,6 +496,26 @@ def neighbours_session(case, rng):
             s2.insert(rng.randrange(len(s2) + 1), rng.choice([["silence"], ["pkt", 1, 0, 1, "00"], ["pkt", 0, 0, 0, ack(rng.randrange(0, 4))]]))
         d["script"] = s2
         yield d
+
+
+def gen_multi_case(rng, n=None):
+    """several read requests to one server, their transfers running concurrently (each with its own script)"""
+    n = n or rng.choice([2, 2, 3])
+    parts = [gen_transfer_case(rng, simple_cfg=True, bs_choices=[8, 16, 512], handler_kind="stream") for _ in range(n)]
+    first = parts[0]
+    # one server configuration and one handler list: handler i accepts only file name "f<i>"
+    handlers = []
+    for i, p in enumerate(parts):
+        handlers.append({"accept": ["f%d" % i], "result": p["handlers"][0]["result"]})
+    def readdress(p, i):
+        dg = bytes.fromhex(p["datagram"])
+        fields = dg[2:].split(b"\0")
+        fields[0] = b"f%d" % i
+        return (b"\x00\x01" + b"\0".join(fields)).hex()
+    case = {"cfg": first["cfg"], "datagram": readdress(first, 0), "handlers": handlers, "script": first["script"],
+            "more": [{"datagram": readdress(p, i), "script": p["script"]} for i, p in enumerate(parts) if i > 0],
+            "_meta": {"style": "multi", "handler": "stream"}}
+    return case
 
 
 def strip_meta(case):
